@@ -30,6 +30,10 @@ func (ex *Exec) invSchemaParts(db *SymDB) []namedTerm {
 	for _, name := range db.names {
 		t := db.tabs[name]
 		var cs []*Term
+		flush := func(n string) {
+			out = append(out, namedTerm{"I1:" + name + ":" + n, tt.And(cs...)})
+			cs = nil
+		}
 		for ci := range t.def.cols {
 			c := &t.def.cols[ci]
 			if !c.unique {
@@ -43,14 +47,17 @@ func (ex *Exec) invSchemaParts(db *SymDB) []namedTerm {
 				}
 			}
 		}
+		flush("unique")
 		if t.def.keyCol >= 0 {
 			for _, r := range t.rows {
 				cs = append(cs, tt.Implies(r.present, tt.Not(r.cols[t.def.keyCol].null)))
 			}
 		}
+		flush("key-notnull")
 		if t.def.autoCol >= 0 {
 			ac := t.def.autoCol
-			cs = append(cs, tt.SLe(tt.BV(1, 64), t.nextSort), tt.SLt(t.nextSort, tt.BV(1<<40, 64)))
+			cs = append(cs, tt.SLe(tt.BV(1, 64), t.nextSort))
+			out = append(out, namedTerm{"B:" + name + ":nextsort", tt.SLt(t.nextSort, tt.BV(1<<40, 64))})
 			for i, r := range t.rows {
 				cs = append(cs, tt.Implies(r.present, tt.And(tt.Not(r.cols[ac].null), tt.SLe(tt.BV(1, 64), r.cols[ac].v), tt.SLt(r.cols[ac].v, t.nextSort))))
 				for j := i + 1; j < len(t.rows); j++ {
@@ -58,6 +65,7 @@ func (ex *Exec) invSchemaParts(db *SymDB) []namedTerm {
 				}
 			}
 		}
+		flush("sortid")
 		// Postgres 32-bit columns hold 32-bit values
 		if db.dialect == "postgres" {
 			lo, hi := tt.BV(uint64(0xffffffff80000000), 64), tt.BV(0x7fffffff, 64)
@@ -70,7 +78,7 @@ func (ex *Exec) invSchemaParts(db *SymDB) []namedTerm {
 				}
 			}
 		}
-		out = append(out, namedTerm{"I1:" + name, tt.And(cs...)})
+		flush("pg-width")
 	}
 	return out
 }
@@ -97,10 +105,12 @@ func (ex *Exec) notNull(t *Table, r *Row, cols ...string) *Term {
 
 func (ex *Exec) validMesg(s *Term) *Term {
 	tt := ex.tt
-	if s.op == "uf:jenc_message.Mesg" {
-		return tt.Bool(true)
-	}
-	return tt.And(tt.UF("jvalid_message.Mesg", SBool, s), tt.Not(tt.UF("jnull_message.Mesg", SBool, s)))
+	return liftIte(tt, s, func(s *Term) *Term {
+		if s.op == "uf:jenc_message.Mesg" {
+			return tt.Bool(true)
+		}
+		return tt.And(tt.UF("jvalid_message.Mesg", SBool, s), tt.Not(tt.UF("jnull_message.Mesg", SBool, s)))
+	})
 }
 
 func (ex *Exec) InvParts(db *SymDB, now *Term) []namedTerm {
@@ -158,7 +168,7 @@ func (ex *Exec) InvParts(db *SymDB, now *Term) []namedTerm {
 	if tk := db.tabs["tasks"]; tk != nil {
 		p := db.tabs["promises"]
 		cb := db.tabs["callbacks"]
-		var cs []*Term
+		subs := map[string][]*Term{}
 		for _, r := range tk.rows {
 			id := tk.c(r, "id").v
 			st := tk.c(r, "state").v
@@ -174,31 +184,37 @@ func (ex *Exec) InvParts(db *SymDB, now *Term) []namedTerm {
 					noCb = append(noCb, tt.Not(tt.And(cr.present, tt.Eq(cb.c(cr, "id").v, id))))
 				}
 			}
-			row := tt.And(
-				ex.notNull(tk, r, "id", "state", "root_promise_id", "recv", "mesg", "timeout", "counter", "attempt", "ttl", "expires_at", "created_on"),
-				ex.inStates(st, 1, 2, 4, 8, 16),
-				tt.SLe(tt.BV(1, 64), tk.c(r, "counter").v), tt.SLt(tk.c(r, "counter").v, tt.BV(1<<30, 64)),
-				tt.SLe(zero, tk.c(r, "attempt").v), tt.SLt(tk.c(r, "attempt").v, tt.BV(1<<30, 64)),
-				tt.SLe(zero, tk.c(r, "ttl").v), tt.SLt(tk.c(r, "ttl").v, tt.BV(1<<31, 64)),
-				tt.Implies(tt.Eq(st, tt.BV(4, 64)), tt.Not(tk.c(r, "process_id").null)),
-				tt.Or(isInvoke, tt.PrefixOf(tt.Str("__resume:"), id), tt.PrefixOf(tt.Str("__notify:"), id)),
-				tt.Implies(isInvoke, tt.Or(hasPromise...)),
-				tt.And(noCb...),
-				ex.validMesg(tk.c(r, "mesg").v),
-				tt.Eq(ex.mesgField(tk.c(r, "mesg").v, 1), tk.c(r, "root_promise_id").v),
-			)
-			cs = append(cs, tt.Implies(r.present, row))
+			sub := []namedTerm{
+				{"notnull", ex.notNull(tk, r, "id", "state", "root_promise_id", "recv", "mesg", "timeout", "counter", "attempt", "ttl", "expires_at", "created_on")},
+				{"states", ex.inStates(st, 1, 2, 4, 8, 16)},
+				{"counter", tt.SLe(tt.BV(1, 64), tk.c(r, "counter").v)},
+				{"attempt", tt.SLe(zero, tk.c(r, "attempt").v)},
+				{"ttl", tt.SLe(zero, tk.c(r, "ttl").v)},
+				{"B:ranges", tt.And(tt.SLt(tk.c(r, "counter").v, tt.BV(1<<30, 64)), tt.SLt(tk.c(r, "attempt").v, tt.BV(1<<30, 64)), tt.SLt(tk.c(r, "ttl").v, tt.BV(1<<31, 64)))},
+				{"claimed-has-process", tt.Implies(tt.Eq(st, tt.BV(4, 64)), tt.Not(tk.c(r, "process_id").null))},
+				{"idprefix", tt.Or(isInvoke, tt.PrefixOf(tt.Str("__resume:"), id), tt.PrefixOf(tt.Str("__notify:"), id))},
+				{"invoke-has-promise", tt.Implies(isInvoke, tt.Or(hasPromise...))},
+				{"no-callback-twin", tt.And(noCb...)},
+				{"mesg", tt.And(ex.validMesg(tk.c(r, "mesg").v), tt.Eq(ex.mesgField(tk.c(r, "mesg").v, 1), tk.c(r, "root_promise_id").v))},
+			}
+			for _, sp := range sub {
+				subs[sp.name] = append(subs[sp.name], tt.Implies(r.present, sp.t))
+			}
 		}
-		out = append(out, namedTerm{"I4:tasks", tt.And(cs...)})
+		for _, n := range []string{"notnull", "states", "counter", "attempt", "ttl", "claimed-has-process", "idprefix", "invoke-has-promise", "no-callback-twin", "mesg"} {
+			out = append(out, namedTerm{"I4:tasks:" + n, tt.And(subs[n]...)})
+		}
+		out = append(out, namedTerm{"B:tasks:ranges", tt.And(subs["B:ranges"]...)})
 	}
 	// I5 locks
 	if lk := db.tabs["locks"]; lk != nil {
-		var cs []*Term
+		var cs, bs []*Term
 		for _, r := range lk.rows {
 			cs = append(cs, tt.Implies(r.present, tt.And(ex.notNull(lk, r, "resource_id", "execution_id", "process_id", "ttl", "expires_at"),
-				tt.SLe(zero, lk.c(r, "ttl").v), tt.SLt(lk.c(r, "ttl").v, big))))
+				tt.SLe(zero, lk.c(r, "ttl").v))))
+			bs = append(bs, tt.Implies(r.present, tt.SLt(lk.c(r, "ttl").v, big)))
 		}
-		out = append(out, namedTerm{"I5:locks", tt.And(cs...)})
+		out = append(out, namedTerm{"I5:locks", tt.And(cs...)}, namedTerm{"B:locks:ttl", tt.And(bs...)})
 	}
 	// I6 schedules
 	if sc := db.tabs["schedules"]; sc != nil {
@@ -207,13 +223,17 @@ func (ex *Exec) InvParts(db *SymDB, now *Term) []namedTerm {
 			cs = append(cs, tt.Implies(r.present, tt.And(
 				ex.notNull(sc, r, "id", "description", "cron", "tags", "promise_id", "promise_timeout", "promise_param_headers", "promise_param_data", "promise_tags", "next_run_time", "created_on"),
 				validMap(tt, sc.c(r, "tags").v), validMap(tt, sc.c(r, "promise_param_headers").v), validMap(tt, sc.c(r, "promise_tags").v),
-				inRange(sc.c(r, "next_run_time").v),
+
 				tt.Implies(tt.Not(sc.c(r, "last_run_time").null), tt.SLt(sc.c(r, "last_run_time").v, sc.c(r, "next_run_time").v)),
 			)))
 		}
-		out = append(out, namedTerm{"I6:schedules", tt.And(cs...)})
+		var bs []*Term
+		for _, r := range sc.rows {
+			bs = append(bs, tt.Implies(r.present, inRange(sc.c(r, "next_run_time").v)))
+		}
+		out = append(out, namedTerm{"I6:schedules", tt.And(cs...)}, namedTerm{"B:schedules:next", tt.And(bs...)})
 	}
-	out = append(out, namedTerm{"I0:clock", inRange(now)})
+	out = append(out, namedTerm{"B:clock", inRange(now)})
 	return out
 }
 
